@@ -13,7 +13,7 @@ MB = 'stone.backends.python_rsrc.stone_base:'
 
 # ---------------------------------------------------------------- Struct validator
 
-@contract(MV + 'Struct.validate_type_only', properties=['C08', 'C06'], raises=[bv.ValidationError])
+@contract(MV + 'Struct.validate_type_only', properties=['C08', 'C06', 'C05', 'C04', 'C13'], raises=[bv.ValidationError])
 class Struct_validate_type_only:
     params = {'self': Obj(bv.Struct), 'val': AnyVal()}
 
@@ -26,7 +26,7 @@ class Struct_validate_type_only:
         return Raise(bv.ValidationError)
 
 
-@contract(MV + 'Struct.validate_fields_only', properties=['C08', 'C06'], raises=[bv.ValidationError])
+@contract(MV + 'Struct.validate_fields_only', properties=['C08', 'C06', 'C05', 'C04', 'C13'], raises=[bv.ValidationError])
 class Struct_validate_fields_only:
     params = {'self': Obj(bv.Struct), 'val': AnyVal()}
 
@@ -39,7 +39,7 @@ class Struct_validate_fields_only:
         return Raise(bv.ValidationError)
 
 
-@contract(MV + 'Struct.validate', properties=['C08', 'C06'], raises=[bv.ValidationError])
+@contract(MV + 'Struct.validate', properties=['C08', 'C06', 'C05', 'C04', 'C13'], raises=[bv.ValidationError])
 class Struct_validate:
     params = {'self': Obj(bv.Struct), 'val': AnyVal()}
 
@@ -63,7 +63,7 @@ class Struct_has_default:
 
 # ---------------------------------------------------------------- Union validator
 
-@contract(MV + 'Union.validate_type_only', properties=['C08', 'C06'], raises=[bv.ValidationError])
+@contract(MV + 'Union.validate_type_only', properties=['C08', 'C06', 'C05', 'C04', 'C13'], raises=[bv.ValidationError])
 class Union_validate_type_only:
     params = {'self': Obj(bv.Union), 'val': AnyVal()}
 
@@ -76,7 +76,7 @@ class Union_validate_type_only:
         return Raise(bv.ValidationError)
 
 
-@contract(MV + 'Union.validate', properties=['C08', 'C06'], raises=[bv.ValidationError])
+@contract(MV + 'Union.validate', properties=['C08', 'C06', 'C05', 'C04', 'C13'], raises=[bv.ValidationError])
 class Union_validate:
     params = {'self': Obj(bv.Union), 'val': AnyVal()}
 
@@ -94,7 +94,7 @@ def _wf_descriptor(a):
             and hasattr(a, 'default') and hasattr(a, 'validator'))
 
 
-@contract(MB + 'Attribute.__get__', properties=['C08', 'C10', 'C04'], raises=[AttributeError])
+@contract(MB + 'Attribute.__get__', properties=['C08', 'C10', 'C04', 'C05', 'C06', 'C13'], raises=[AttributeError])
 class Attribute_get:
     """reading a field: the stored value, None for an unset nullable field,
     the declared default for an unset defaulted field, AttributeError otherwise"""
@@ -127,7 +127,7 @@ class public_name_c:
         return exc is None and isinstance(result, str)
 
 
-@contract(MB + 'Attribute.__set__', properties=['C08', 'C04', 'C06'], raises=[bv.ValidationError])
+@contract(MB + 'Attribute.__set__', properties=['C08', 'C04', 'C06', 'C05'], raises=[bv.ValidationError])
 class Attribute_set:
     """assigning a field: accepted exactly when the value satisfies the field's
     type (user-defined types: the right class; fields of such values are checked
@@ -168,7 +168,7 @@ class Attribute_delete:
 
 # ---------------------------------------------------------------- bb.Union
 
-@contract(MB + 'Union.__init__', properties=['C08', 'C06', 'C04'], raises=[AssertionError, bv.ValidationError])
+@contract(MB + 'Union.__init__', properties=['C08', 'C06', 'C04', 'C05'], raises=[AssertionError, bv.ValidationError])
 class Union_init:
     """constructing a union member: the tag must be one of the union's tags and
     the value must satisfy the tag's type (Void: None; user types: the right class)"""
